@@ -134,3 +134,18 @@ claim("C09", "proof",
       "A1 (t = k*dt exact). The Python unmarshalling (_get_data/_get_t_sample) is checked with the seam in C04. Requested times "
       "sorted (quantifier). A2: uniform draws are in (0,1).",
       "deductive: symbolic interpretation of clang AST with loop invariants + SMT", "DESIGN.md 3/C09")
+claim("C04", "proof",
+      "(i) every dictionary reader (species, reaction, network, grid, graph incl. nodes and edges, system) gives the child the "
+      "explicit / parent ('inherit' or absent) / default units system and reads bare numbers as number x scale(that system, field "
+      "dimension), explicit-unit quantities (objects and printed text) keep their SI value under any owner system; (ii) the seam: "
+      "LibRDEngine.setup is executed symbolically with a recording stand-in for the library and every argument of "
+      "engineexport_initialize_grid/_graph - matched by parameter NAME read from clang's AST of engine.cpp - equals SI value / "
+      "scale(engine units) (state, cell/node volumes, edge surfaces and distances, rate-constant matrix per environment and directed "
+      "reaction, diffusion matrix, sample times, t_max, step, interval) or the exact integer/string (sizes, flags, environment map, "
+      "stoichiometry matrices, boundary conditions per axis, policy, processing mode, seed, option), for both engine unit "
+      "conventions (script units / molecules); get_output multiplies back by scale(engine units) and reports in the script's units "
+      "with a buffer of exactly nsamples*S*n entries.",
+      "Homogeneity of the engine's own formulas in its working units (dimension typing of the C++ formulas) is NOT decided by this "
+      "check; with C01 (all realisations equal one SI law) the claim covers inputs, marshalling and outputs. Structure enumerated. A1.",
+      "deductive: symbolic execution of real source + exact rational-function normalisation + SMT; ABI parameter order from clang AST",
+      "DESIGN.md 3/C04")
